@@ -504,7 +504,25 @@ pub fn run(tier: Tier) -> i32 {
     }
     let (l, s1, _e, _d, c1) = bfs_par(init, |s| s.key(), expand_dev, dev_depth + 1, 5_000_000);
     let mut transitions = l.transitions;
+    let dev_expanded = l.states;
     cx.absorb(l);
+    // engine cross-validation: the same machine explored by stateright (an independent explicit-state
+    // checker driving the same real code) must find the same number of unique states and no violation
+    let (sr_states, sr_depth, sr_ok) = crate::sr::devset_model_check(dev_depth, n_threads().min(8));
+    cx.extra.insert("stateright_unique_states".into(), json!(sr_states));
+    cx.extra.insert("stateright_max_depth".into(), json!(sr_depth));
+    cx.extra.insert("stateright_properties_hold".into(), json!(sr_ok));
+    // stateright explores states with up to `dev_depth` pushes: exactly the states the BFS expanded
+    cx.extra.insert("devset_states_expanded".into(), json!(dev_expanded));
+    if sr_states as u64 != dev_expanded {
+        cx.acc.machinery.push(format!("engine cross-validation failed: stateright found {} unique deviation-set states, the harness BFS expanded {}", sr_states, dev_expanded));
+    }
+    {
+        let mut lx = Local::new();
+        lx.eval();
+        lx.check("deviation set invariant under the stateright exploration", "", sr_ok, || json!({"kind": "devset", "engine": "stateright"}), || "stateright reported a property discovery".to_string());
+        cx.absorb(lx);
+    }
     // MC 2: point cloud
     let mut cinit = Vec::new();
     for hn in [false, true] {
